@@ -364,4 +364,90 @@ EXTRA = [
     E('E-C07f-commuted', 'mapproxy/cache/base.py', "max_lock_time=self.lock_timeout + 10,", "max_lock_time=10 + self.lock_timeout,",
       'commuted sum'),
     M('M-C07f-cleanup-newer', 'mapproxy/util/lock.py', "if os.path.getmtime(name) < expire_time:", "if os.path.getmtime(name) > expire_time:", 'C07.f'),
+    # ---------------------------------------------------------------- C09
+    M('M-C09c-rest-tile-no-int', 'mapproxy/request/wmts.py', """        self.layer = req_vars['Layer']
+        self.tile = int(req_vars['TileCol']), int(req_vars['TileRow']), int(req_vars['TileMatrix'])
+        self.format = req_vars.get('Format')""", """        self.layer = req_vars['Layer']
+        self.tile = req_vars['TileCol'], req_vars['TileRow'], req_vars['TileMatrix']
+        self.format = req_vars.get('Format')""", 'C09.c'),
+    E('E-C09c-tuple-generator', 'mapproxy/request/tile.py', "self.tile = tuple([int(match.group(v)) for v in ['x', 'y', 'z']])",
+      "self.tile = tuple(int(match.group(v)) for v in ['x', 'y', 'z'])", 'generator instead of list'),
+    M('M-C09d-revert-D2', 'mapproxy/cache/path.py', """            lambda k: _dimension_dirname(k) + "-" + _dimension_dirname(dims.get(k, 'default')), dim_keys)))""",
+      """            lambda k: k + "-" + str(dims.get(k, 'default')), dim_keys)))""", 'C09.d', 'revert of fix D2'),
+    M('M-C09d-values-only', 'mapproxy/cache/path.py', """            lambda k: _dimension_dirname(k) + "-" + _dimension_dirname(dims.get(k, 'default')), dim_keys)))""",
+      """            lambda k: k + "-" + _dimension_dirname(dims.get(k, 'default')), dim_keys)))""", 'C09.d', 'keys unsanitised'),
+    M('M-C09d-sanitiser-forward-slash-only', 'mapproxy/cache/path.py', "for sep in ('/', '\\\\', os.sep, os.altsep):",
+      "for sep in ('/', os.altsep):", 'C09.d'),
+    E('E-C09d-resub-whitelist', 'mapproxy/cache/path.py', """    value = str(value)
+    for sep in ('/', '\\\\', os.sep, os.altsep):
+        if sep:
+            value = value.replace(sep, '_')
+    return value""", """    import re
+    return re.sub(r'[^A-Za-z0-9_.:+-]', '_', str(value))""", 're.sub with a negated whitelist'),
+    E('E-C09d-replace-chain', 'mapproxy/cache/path.py', """    value = str(value)
+    for sep in ('/', '\\\\', os.sep, os.altsep):
+        if sep:
+            value = value.replace(sep, '_')
+    return value""", """    return str(value).replace('/', '_').replace('\\\\', '_')""", 'replace chain'),
+    M('M-C09e-unvalidated-dimensions', 'mapproxy/service/tile.py', """                tile = self.tile_manager.load_tile_coord(tile_coord,
+                                                         dimensions=dimensions, with_metadata=True)
+            if tile.source is None:
+                return self.empty_response()
+
+            # Provide the wrapping WSGI app or filter the opportunity to process the
+            # image before it's wrapped up in a response
+            if decorate_img:
+                tile.source = decorate_img(tile.source)
+
+            if coverage_intersects:
+                if self.empty_response_as_png:
+                    format = 'png'
+                    image_opts = ImageOptions(transparent=True, format='png')
+                else:
+                    format = self.format
+                    image_opts = tile.source.image_opts
+
+                tile.source = mask_image_source_from_coverage(
+                    tile.source, tile_bbox, self.grid.srs, coverage, image_opts)
+
+                return TileResponse(tile, format=format, image_opts=image_opts)
+
+            format = None if self._mixed_format else tile_request.format""", """                tile = self.tile_manager.load_tile_coord(tile_coord,
+                                                         dimensions=tile_request.dimensions, with_metadata=True)
+            if tile.source is None:
+                return self.empty_response()
+
+            # Provide the wrapping WSGI app or filter the opportunity to process the
+            # image before it's wrapped up in a response
+            if decorate_img:
+                tile.source = decorate_img(tile.source)
+
+            if coverage_intersects:
+                if self.empty_response_as_png:
+                    format = 'png'
+                    image_opts = ImageOptions(transparent=True, format='png')
+                else:
+                    format = self.format
+                    image_opts = tile.source.image_opts
+
+                tile.source = mask_image_source_from_coverage(
+                    tile.source, tile_bbox, self.grid.srs, coverage, image_opts)
+
+                return TileResponse(tile, format=format, image_opts=image_opts)
+
+            format = None if self._mixed_format else tile_request.format""", 'C09.e'),
+    M('M-C09e-accept-any-value', 'mapproxy/service/tile.py', """            if value in values:
+                dimensions[dimension] = value
+            elif not value or value == 'default':""", """            if value:
+                dimensions[dimension] = value
+            elif not value or value == 'default':""", 'C09.e'),
+    M('M-C09a-request-path-in-filecache', 'mapproxy/cache/file.py', """        return self._tile_location(tile, self.cache_dir, self.file_ext, create_dir=create_dir, dimensions=dimensions,
+                                   directory_permissions=self.directory_permissions)""", """        return self._tile_location(tile, cache_dir, self.file_ext, create_dir=create_dir, dimensions=dimensions,
+                                   directory_permissions=self.directory_permissions)""", 'C09.b',
+      'the half-sanitised cache_dir computed from request dimensions is actually used'),
+    M('M-C09a-level-from-dimension', 'mapproxy/cache/mbtiles.py', """        return self._get_level(tile.coord[2]).is_cached(tile, dimensions=dimensions)""",
+      """        return self._get_level(dimensions and dimensions.get('time') or tile.coord[2]).is_cached(tile, dimensions=dimensions)""",
+      'C09.a|C05.d', 'level database name taken from a request dimension'),
+    M('M-C09f-multiapp-two-segments', 'mapproxy/multiapp.py', "        app_name = req.pop_path()\n        if not app_name:\n            return self.index_list(req)",
+      "        app_name = req.path.lstrip('/')\n        if not app_name:\n            return self.index_list(req)", 'C09.f'),
 ]
